@@ -273,8 +273,8 @@ struct Twin {
   float f {7.5f};
   double d {-7.25};
   TestEnum e {::babylon::E2};
-  ::std::string s {"dflt-s"};
-  ::std::string by {"dflt-by"};
+  ::std::string s;   // no sentinel: an empty string member is not written at all (documented rule), so
+  ::std::string by;  // a non-empty default could not round-trip through babylon itself
   TwinSub m;
   ::std::unique_ptr<TwinSub> pm;
   // <- (babylon -> protobuf only)
@@ -372,7 +372,7 @@ struct Gen {
   // set after a death outside any parse was observed for the type (see run_slice): empty
   // vector<float|double> are then generated with one element
   bool no_empty_fp_vectors = false;
-  explicit Gen(uint64_t seed, long b = 400, bool c = false) : r(seed), budget(b), compat(c) {}
+  explicit Gen(uint64_t seed, long b = 160, bool c = false) : r(seed), budget(b), compat(c) {}
   size_t len(bool cheap_elements) {
     uint64_t k = r.below(100);
     size_t n;
